@@ -54,7 +54,9 @@ class TrackObs(Observer):
             de = (reg._rr_equiv.bundle_params['de']
                   if reg._rr_equiv is not None else reg._params['de'])
             cF = p['ff'] * dz * rho * p['vel'] ** 2 / 2 / de
-        cG = rho * 9.80665 * dz if reg._gravity else 0.0
+        # gravity as requested in the input, not as the region believes
+        cG = rho * 9.80665 * dz if self.r._options.get('include_gravity') \
+            else 0.0
         self.F[ai] += dF
         self.S[ai] += dS
         self.G[ai] += dG
